@@ -62,6 +62,41 @@ def flat_obs(o):
     return out
 
 
+def bflat_obs(o):
+    """flatten the raw model outcome of a broadcast run exactly like HubCheck.bflat_obs"""
+    out = []
+    for p in o["parties"]:
+        out.append(100)
+        for r in p["bres"]:
+            out += [2, r[1], r[2]] if isinstance(r, list) else [{"ok": 0, "connerr": 1}[r]]
+        out += [101, p["left"], 102]
+        for r in p["res"]:
+            out += [2, r[1]] if isinstance(r, list) else [{"ok": 0, "connerr": 1, "empty": 3, "indexerr": 4}[r]]
+    out.append(104)
+    for k, l in o["queues"]:
+        out += k + [105] + l + [106]
+    out.append(107)
+    for k in o["open"]:
+        out += k
+    out.append(108)
+    for k in o["rem"]:
+        out += k
+    return out
+
+
+def coq_bcfg(cfg):
+    ps = []
+    for th in cfg:
+        if th.get("kind") == "bc":
+            ops = [{"bconnect": "BConnect", "brecv": "BRecv", "bclose": "BClose"}.get(o[0]) or f"BSend {o[1]}" for o in th["ops"]]
+            ps.append(f"CB {th['app']} [{'; '.join(map(str, th['remotes']))}] [{'; '.join(ops)}]")
+        else:
+            ops = [{"connect": "Connect", "recv": "Recv false", "recvnb": "Recv true", "disconnect": "Disconnect"}.get(o[0])
+                   or f"Send {o[1]}" for o in th["ops"] if o[0] != "setcb"]
+            ps.append(f"CRaw {coq_key(th['key'])} [{'; '.join(ops)}]")
+    return "[" + "; ".join(ps) + "]"
+
+
 def one_run(ctx, drv, cfg, chooser, mode, info, trace_socket_py=False):
     """Run cfg on the implementation, compare with the model step by step, apply the oracle.
     Returns (run, canonical outcome, model answer, problems)."""
@@ -92,15 +127,42 @@ def replay_entry(ctx, drv, rec, info):
     return one_run(ctx, drv, cfg, ch, rec.get("mode", "access"), info)
 
 
+class Deadline(Exception):
+    pass
+
+
+def arm_deadline(ctx, seconds):
+    """Global wall-clock deadline of the whole check: whatever hangs, the main thread gets an exception, vlib
+    turns it into a broken obligation and reports what was found so far."""
+    import signal
+
+    def on_alarm(signum, frame):
+        raise Deadline(f"C18 global deadline of {seconds} s reached ({ctx.tier})")
+
+    signal.signal(signal.SIGALRM, on_alarm)
+    signal.setitimer(signal.ITIMER_REAL, seconds)
+
+
+def too_many_leaks(ctx):
+    if hs.LEAKED > 30:
+        msg = (f"{hs.LEAKED} threads were left blocked in waits the scheduler cannot see (un-patched blocking "
+               f"primitive in the hub): exploration stopped early")
+        if msg not in ctx.notes:
+            ctx.notes.append(msg)
+        return True
+    return False
+
+
 def run(ctx):
     quick = ctx.tier == "quick"
+    arm_deadline(ctx, 330 if quick else 1750)
     ctx.rule = ("configurations: 2-4 threads over 1-3 endpoint pairs (families pair, paircb = callback endpoints, twosock, "
                 "threenode, reinc = a later endpoint re-using a key, switch = the receiver flips use_callbacks on its connected socket while the peer sends, reconn = a (callback) receiver that stays connected while the sender disconnects, reconnects with the same socket id and sends again, lone = no peer, shared = two threads on one key), "
                 "<= 4 send/recv/recv-nonblocking ops between connect and optional disconnect; each is run on the real "
                 "hub under seeded random (pre-emption probability 0.03..0.7) and PCT-style (depth 2..5) line-level "
                 "schedules; message payloads include the empty string, \"0\" and whitespace. A second stream runs "
                 "ThreadBroadcastChannel endpoints (2-3 nodes all broadcasting, or one broadcast receiver polling 1-2 plain "
-                "peers) under the same scheduler, judged by the broadcast oracle only. "
+                "peers) under the same scheduler, compared step by step with Net/Bcast.v and judged by the broadcast oracle. "
                 "A case = (configuration, executed access schedule); non-trivial if at least one message "
                 "was sent and the schedule switched threads at least twice; distinct = distinct (configuration, "
                 "access schedule).")
@@ -109,7 +171,9 @@ def run(ctx):
         "(nat<->int, JSON printing, breadth-first search over erased states keyed by MD5 of Marshal) — a sample of "
         "schedules is re-evaluated with vm_compute in Coq and compared",
         "harness/hub_sched.py: sys.settrace line-level scheduler, logging subclasses of set/dict/list/defaultdict "
-        "substituted for the hub's containers, cooperative lock substituted for threading.Lock, sleep patched to yield",
+        "substituted for the hub's containers; every blocking primitive the hub modules can name (Lock/RLock/Event/"
+        "Condition/Semaphore, sleep, the threading and time modules) replaced in their namespaces by schedulable versions; "
+        "wall-clock watchdog per resume, SIGALRM deadline for the whole check",
         "harness/hub_common.py: configuration generator, canonicaliser, oracle",
     ]
     ctx.assume += [
@@ -121,7 +185,11 @@ def run(ctx):
         "explicit disconnect op; reset_socket_hub is not used while threads run",
         "messages are distinct per configuration; the model treats payloads as opaque numbers (the harness maps them "
         "to strings incl. falsy ones and back)",
-        "broadcast-channel executions have no model counterpart: oracle on the implementation only",
+        "broadcast endpoints: the model (Net/Bcast.v) covers BroadcastChannelBySockets.__init__/send/recv(block=True, "
+        "timeout=None) and an explicit close of all sockets; its outcome sets are not enumerated (step-level "
+        "correspondence + oracle only)",
+        "a thread blocked in a wait the scheduler cannot see (un-patched blocking primitive) is taken off the schedule "
+        "by a 2.5 s wall-clock watchdog; such runs are not reproducible step by step",
     ]
     drv = hc.Driver(ctx)
     ctx.gen_obligation("extraction of Net/Hub.v and OCaml driver build", drv.ok, (drv.err or "")[-400:])
@@ -173,7 +241,7 @@ def run(ctx):
     t_start = time.time()
     rng = ctx.rng
     for c in range(n_cfg):
-        if time.time() - t_start > t_budget:
+        if time.time() - t_start > t_budget or too_many_leaks(ctx):
             ctx.notes.append(f"time budget reached after {c} configurations")
             break
         family, cfg = hc.gen_cfg(rng)
@@ -193,6 +261,8 @@ def run(ctx):
         oset = {hc.okey(o) for o, _ in outs} if outs is not None else None
         seen_outcomes = set()
         for s in range(n_sched):
+            if time.time() - t_start > t_budget + 15 or too_many_leaks(ctx):
+                break
             kind = rng.random()
             if kind < 0.6:
                 p = rng.choice([0.03, 0.1, 0.3, 0.7])
@@ -218,6 +288,8 @@ def run(ctx):
         # completeness direction: model outcomes replayed on the implementation
         if outs is not None and (not quick or len(outs) <= 6):
             for o, wsched in outs:
+                if time.time() - t_start > t_budget + 25 or too_many_leaks(ctx):
+                    break
                 if hc.okey(o) in seen_outcomes:
                     cov["model_outcomes_reproduced"] += 1
                     continue
@@ -231,19 +303,22 @@ def run(ctx):
                     mism.append((("model-outcome-not-reproduced", o, ci), rep))
         elif outs is not None:
             cov["model_outcomes_reproduced"] += sum(1 for o, _ in outs if hc.okey(o) in seen_outcomes)
-    # ---- broadcast channels over thread sockets (implementation + oracle only; no model counterpart)
+    # ---- broadcast channels over thread sockets: oracle + step-level correspondence with Net/Bcast.v
     n_bc = 16 if quick else 140
     n_bs = 10 if quick else 36
     cov["bcast_runs"] = 0
+    bxsample = []
     cov["bcast_shapes"] = {}
     cov["bcast_blocked_runs"] = 0
     t_bc = time.time()
     for c in range(n_bc):
-        if time.time() - t_bc > (20 if quick else 150):
+        if time.time() - t_bc > (20 if quick else 150) or too_many_leaks(ctx):
             ctx.notes.append(f"broadcast time budget reached after {c} configurations")
             break
         shape, cfg = hc.gen_bcast(rng)
         for s in range(n_bs):
+            if time.time() - t_bc > (30 if quick else 170) or too_many_leaks(ctx):
+                break
             if rng.random() < 0.6:
                 pp = rng.choice([0.03, 0.1, 0.3, 0.7])
                 ch, info = hs.random_chooser(rng, pp), dict(chooser="random", p=pp)
@@ -252,6 +327,19 @@ def run(ctx):
                 ch, info = hs.pct_chooser(rng, len(cfg), d, 40 * len(cfg)), dict(chooser="pct", depth=d)
             r = hc.run_impl_bc(cfg, ch)
             cov["bcast_runs"] += 1
+            # step-level correspondence with Net/Bcast.v (one endpoint owning several sockets)
+            bm = hc.brun_model(drv, cfg, r.access_schedule())
+            bci = hc.canon_impl_bc(r, cfg)
+            if bm["labels"] != r.labels() or hc.canon_model_bc(bm["outcome"]) != bci:
+                i = next((j for j, (a, b) in enumerate(zip(bm["labels"], r.labels())) if a != b),
+                         min(len(bm["labels"]), len(r.labels())))
+                what = (("bcast-labels", i, (bm["labels"][i:i + 3], r.labels()[i:i + 3])) if bm["labels"] != r.labels()
+                        else ("bcast-outcome", hc.canon_model_bc(bm["outcome"]), bci))
+                mism.append((what, dict(kind="bcast", cfg=cfg, mode="line", schedule=r.line_sched,
+                                        access_schedule=r.access_schedule(), impl_accesses=r.labels(), impl_outcome=bci,
+                                        info=dict(info, shape=shape))))
+            if len(bxsample) < (10 if quick else 40) and s == 0:
+                bxsample.append((cfg, r.access_schedule(), bflat_obs(bm["outcome"])))
             cov["bcast_shapes"][shape] = cov["bcast_shapes"].get(shape, 0) + 1
             cov["bcast_blocked_runs"] += int("blocked" in r.status)
             ctx.note_case(hash((json.dumps(cfg), tuple(r.line_sched))), nontrivial=bool(r.appended))
@@ -281,6 +369,16 @@ def run(ctx):
                                    for cfg, sch, ex in xsample[i:i + per]))
                 f.write("].\nEval vm_compute in (failing cs).\n")
             files.append(fn)
+        if bxsample:
+            fn = "cases_hub_bcast.v"
+            with open(os.path.join(ctx.build, fn), "w") as f:
+                f.write("From Coq Require Import List Bool.\nFrom NQ Require Import Net.Hub Net.Bcast Net.HubCheck.\nImport ListNotations.\n")
+                f.write("Definition cs : list bcase := [\n")
+                f.write(";\n".join(f"({coq_bcfg(cfg)}, [{'; '.join(map(str, sch))}], [{'; '.join(map(str, ex))}])"
+                                   for cfg, sch, ex in bxsample))
+                f.write("].\nEval vm_compute in (bfailing cs).\n")
+            files.append(fn)
+            cov["coq_crosscheck_bcast_schedules"] = len(bxsample)
         res = ctx.run_case_files(files, timeout=600)
         okc = 0
         for fn, rr in res.items():
@@ -324,10 +422,25 @@ def search(ctx, drv, reps):
     property itself fails (more schedules on the differing configurations, high pre-emption,
     plus the corpus schedules)."""
     rng = ctx.rng
+    t_search = time.time()
     for rep in reps:
         cfg = rep["cfg"]
+        if rep.get("kind") == "bcast":
+            for i in range(60):
+                if time.time() - t_search > 40 or too_many_leaks(ctx):
+                    return False
+                r = hc.run_impl_bc(cfg, hs.random_chooser(rng, rng.choice([0.1, 0.3, 0.6])))
+                bad = hc.oracle_bcast(r, cfg)
+                if bad:
+                    ctx.violation(f"{bad[0][0]}: {bad[0][1]}",
+                                  dict(kind="bcast", cfg=cfg, mode="line", schedule=r.line_sched, impl_accesses=r.log,
+                                       oracle=[list(b) for b in bad], info=dict(search=True)))
+                    return True
+            continue
         drv.set_cfg(cfg)
         for i in range(150):
+            if time.time() - t_search > 40 or too_many_leaks(ctx):
+                return False
             ch = hs.random_chooser(rng, rng.choice([0.3, 0.6, 0.9])) if i % 2 else hs.pct_chooser(rng, len(cfg), rng.randint(2, 6), 120)
             r = hc.run_impl(cfg, ch, mode="line")
             bad = hc.oracle(r, cfg)
@@ -340,6 +453,7 @@ def search(ctx, drv, reps):
 
 
 def replay(ctx, path):
+    arm_deadline(ctx, 300)
     rec = json.load(open(path))
     rec = rec.get("replay", rec)
     if rec.get("kind") == "bcast":
